@@ -1633,9 +1633,9 @@ fn main() {
             // random histories over nested lists with mutable shared inner lists
             {
                 let total_n: u64 = match tier.as_str() {
-                    "thorough" => 200_000,
+                    "thorough" => 100_000,
                     "search" => 10_000,
-                    _ => 10_000,
+                    _ => 5000,
                 };
                 let mut from = 0u64;
                 let mut crashes = 0;
